@@ -138,6 +138,12 @@ def handle (toks : List String) (impl : String) : Verdict :=
     | some b =>
       { model := some (Driver.CertShow.cmsLine ty b),
         oracle := if impl = "panic" then some "Manifest::decode or an accessor panicked" else none }
+  | ["cmsdr", ty, h] =>
+    match parseHexN h with
+    | none => badOp "hex"
+    | some b =>
+      { model := some (Driver.CertShow.cmsLineM true ty b),
+        oracle := if impl = "panic" then some "Manifest::decode(strict = false) or an accessor panicked" else none }
   | _ => badOp "unknown op"
 
 end Driver.C14
